@@ -101,7 +101,9 @@ Definition is_dot_block (bt : Z) : bool := (bt =? BT_ConvolutionMxN) || (bt =? B
 Definition tf_width (x0 x1 sx sk_l sk_r ifm_w : Z) (split : option (Z * Z)) : Z * Z :=
   match split with
   | None => (Z.max (x0 * sx - sk_l) 0, Z.min (x1 * sx + sk_r) ifm_w)
-  | Some (off, shp) => (Z.max (x0 * sx - sk_l) off, Z.min (x1 * sx + sk_r) (off + shp))
+  | Some (off, shp) =>
+      (* the stride applies to the position inside the output of the split op, not to its offset (repo 6d9d641) *)
+      (Z.max ((x0 - off) * sx - sk_l) 0 + off, Z.min ((x1 - off) * sx + sk_r) shp + off)
   end.
 
 (* the height part: y0 start, y1 end after the clip to ifm_h*up, oy1 the end before that clip;
@@ -151,15 +153,20 @@ Definition transform (i : tf_in) : option (box * Z * Z) :=
     if t_has_ss i then
       let '(sw1, ew1) := tf_width sw ew (t_sx i) (p_left (t_skirt i)) (p_right (t_skirt i)) (cw (t_ifm i))
                            (match t_split i with Some (so, ss) => Some (cw so, cw ss) | None => None end) in
-      let '(sh1, eh1, pt, pb) := tf_height sh eh oeh (t_sy i) (p_top (t_skirt i)) (p_bottom (t_skirt i))
-                                   (ch (t_ifm i)) (t_up i) (t_kdh i) in
-      (sw1, ew1, sh1, eh1, pt, pb)
+      (* with a split/slice read the rows that exist for the operation are those of the split output: the height part is
+         computed relative to its first row, against its height (repo 6d9d641) *)
+      let '(fr, hwin) := match t_split i with Some (so, ss) => (ch so, ch ss) | None => (0, ch (t_ifm i)) end in
+      let '(sh1, eh1, pt, pb) := tf_height (sh - fr) (eh - fr) (oeh - fr) (t_sy i) (p_top (t_skirt i)) (p_bottom (t_skirt i))
+                                   hwin (t_up i) (t_kdh i) in
+      (sw1, ew1, sh1 + fr, eh1 + fr, pt, pb)
     else (sw, ew, sh, eh, 0, 0) in
   let '(sn, sh, sw, sc, en, eh, ew, ec) :=
     if t_wrap i then
       let f := t_ifm i in
-      (wrap1 sn (cn f), wrap1 sh (ch f), wrap1 sw (cw f), wrap1 sc (cc f),
-       wrap1 (en - 1) (cn f) + 1, wrap1 (eh - 1) (ch f) + 1, wrap1 (ew - 1) (cw f) + 1, wrap1 (ec - 1) (cc f) + 1)
+      (* `ifm_shape = ifm_shape.with_height(split_shape[-3])` above also reaches the wrap *)
+      let fh := match t_has_ss i, t_split i with true, Some (_, ss) => ch ss | _, _ => ch f end in
+      (wrap1 sn (cn f), wrap1 sh fh, wrap1 sw (cw f), wrap1 sc (cc f),
+       wrap1 (en - 1) (cn f) + 1, wrap1 (eh - 1) fh + 1, wrap1 (ew - 1) (cw f) + 1, wrap1 (ec - 1) (cc f) + 1)
     else (sn, sh, sw, sc, en, eh, ew, ec) in
   match mk_box {| cn := sn; ch := sh; cw := sw; cc := sc |} {| cn := en; ch := eh; cw := ew; cc := ec |} with
   | Some b => Some (b, pt, pb)
@@ -508,3 +515,23 @@ Definition check_stripe_taps (b0 b1 p0 p1 n s kd d k lo hi top r0 : Z) : bool :=
   forallb (fun i => forallb (fun ky =>
     tap_eqb (hw_tap b0 b1 p0 p1 n s kd i (ky * d)) (ref_tap lo hi top s (r0 + i) (ky * d)))
     (range_from (Z.to_nat k) 0 1)) (range_from (Z.to_nat n) 0 1).
+
+(* the same operator reading the window [so, so + ss) of its IFM tensor (a split / slice folded into it): how the generator
+   calls the transform and create_padding then.  o_ifm is the shape of the whole tensor; the padding attributes of the
+   operator (o_pad, o_skirt) belong to the window *)
+Definition conv_tf_rd (o : convop) (so ss : c4) (b : box) : tf_in :=
+  {| t_s := fst b; t_e := snd b; t_has_ss := true; t_sy := o_sy o; t_sx := o_sx o; t_skirt := o_skirt o;
+     t_ifm := o_ifm o; t_dot := is_dot_block (o_bt o); t_concat := o_woff o;
+     t_kdh := o_dy o * (o_kh o - 1) + 1; t_split := Some (so, ss); t_up := 1; t_wrap := false |}.
+
+Definition conv_hw_padding_rd (o : convop) (so ss : c4) (b ib : box) (pt pb : Z) : pad4 :=
+  create_padding (o_bt o =? BT_VectorProduct) false (o_pad o)
+    (ch (fst b) =? ch (o_woff o)) (ch (o_woff o) + ch (o_oshape o) <=? ch (snd b)) pt pb (Some (cw so, cw ss))
+    (cw (o_ifm o)) (cw (fst ib)) (cw (snd ib)).
+
+Definition conv_geom_h_rd (o : convop) (ss : c4) : geom :=
+  {| g_in := ch ss; g_out := ch (o_oshape o); g_k := o_kh o; g_d := o_dy o; g_s := o_sy o;
+     g_top := p_top (o_pad o); g_bottom := p_bottom (o_pad o); g_sk_t := p_top (o_skirt o); g_sk_b := p_bottom (o_skirt o) |}.
+Definition conv_geom_w_rd (o : convop) (ss : c4) : geom :=
+  {| g_in := cw ss; g_out := cw (o_oshape o); g_k := o_kw o; g_d := o_dx o; g_s := o_sx o;
+     g_top := p_left (o_pad o); g_bottom := p_right (o_pad o); g_sk_t := p_left (o_skirt o); g_sk_b := p_right (o_skirt o) |}.
